@@ -12,7 +12,7 @@
    error sets; it is not proved for all documents. *)
 From Coq Require Import ZArith List String Bool.
 From TV Require Import Py.Prelude Model.Schema Model.ImplInput Model.ImplExec Model.Envelope
-     Model.ImplValidate Model.SpecValidate Model.RunValidate Proofs.ValidateProofs Proofs.ValidateRules Proofs.ValidateValues Proofs.ValidateSites Proofs.ValidateWalk Proofs.ValidateTree Proofs.SingleRoot Proofs.ValidateSpreads Proofs.ValidateScopes Proofs.ValidateVars Proofs.ValidatePure Proofs.SingleRootSpreads
+     Model.ImplValidate Model.SpecValidate Model.RunValidate Proofs.ValidateProofs Proofs.ValidateRules Proofs.ValidateValues Proofs.ValidateSites Proofs.ValidateWalk Proofs.ValidateTree Proofs.SingleRoot Proofs.ValidateSpreads Proofs.ValidateScopes Proofs.ValidateVars Proofs.ValidatePure Proofs.SingleRootSpreads Proofs.FieldLookup
      Gen.Wiring_gen Proofs.Wiring.
 Import ListNotations.
 Open Scope string_scope.
@@ -280,6 +280,17 @@ Proof.
   exact (single_root_rule_refuses_reachable doc o Hin Hk Htwo Hq).
 Qed.
 
+(* the field lookup the node predicates use is the specification's (meta-fields by name, then the declared fields), for
+   schemas whose declared field names do not begin with two underscores and whose query root is an object type -- EXCEPT
+   `__typename` in an interface scope (recorded finding C07-interface-typename-arguments) *)
+Theorem C07_field_lookup_is_the_specifications V p name :
+  (forall ifs fs, vfind_type V p = Some (DObject ifs fs) -> plain_names fs) ->
+  (forall fs, vfind_type V p = Some (DInterface fs) -> plain_names fs) ->
+  (String.eqb p (query_type (vs V)) = true -> exists ifs fs, vfind_type V p = Some (DObject ifs fs)) ->
+  (is_interface V p = true -> name <> "__typename"%string) ->
+  vfind_field V (Some p) name = s_field V (Some p) name.
+Proof. exact (field_lookup_agrees V p name). Qed.
+
 Print Assumptions C07_source_invokes_every_supported_rule.
 Print Assumptions C07_cycle_rule_exact.
 Print Assumptions C07_fragment_cycle_refuses.
@@ -315,3 +326,4 @@ Print Assumptions C07_disallowed_variable_usage_refused.
 Print Assumptions C07_every_reachable_root_key_is_collected.
 Print Assumptions C07_two_reachable_root_keys_reported.
 Print Assumptions C07_two_reachable_root_keys_refused.
+Print Assumptions C07_field_lookup_is_the_specifications.
